@@ -169,10 +169,17 @@ def size_case(args):
         try:
             if api == "batch":
                 got = f.call_batch([{"x": x} for x in range(n)])
-            else:
+            elif api == "range":
                 d = f.map_over_range(x=list(range(n)))
                 got = [d[x] for x in range(n)]
-            wrong = [i for i in range(n) if got[i] != [7, i]]
+            else:
+                # the range handed over as a one-shot iterable (generator / iterator / map object)
+                it = {"range-gen": (x for x in range(n)), "range-iter": iter(list(range(n))), "range-map": map(int, range(n))}[api]
+                d = f.map_over_range(x=it)
+                if sorted(d) != list(range(n)):
+                    bad = ("range-keys", "map_over_range over a one-shot iterable of %d values returned %d keys" % (n, len(d)))
+                got = [d.get(x) for x in range(n)]
+            wrong = [] if bad else [i for i in range(n) if got[i] != [7, i]]
             if wrong:
                 bad = ("slot-differs", "batch of %d elements: position %d holds %r, the individual call gives %r" % (n, wrong[0], got[wrong[0]], [7, wrong[0]]))
         except Exception as e:
@@ -191,6 +198,55 @@ def size_case(args):
                 bad = ("store-differs", "after the batch %d elements are still not memoized" % len(audit.bodies()))
         if bad:
             out["violations"].append(("%s|%s|size:%s|%s" % (kind, api, "<=64" if n <= 64 else ">64", bad[0]), bad[1] + "\nbackend=%s api=%s" % (kind, api), {"size": [kind, n, api]}))
+    finally:
+        rm(top)
+    return out
+
+
+def raise_size_case(args):
+    """A long batch with ONE failing element, in the mode that raises the first failure. What is left in the store is what
+    individual calls leave: either those made one after the other until the failure stops them (the elements up to and
+    including the failing one), or all of them (each made on its own) - nothing in between; and the failure raised is that
+    of the failing element."""
+    from .. import audit
+    from ..fixtures import c15fx as fx
+
+    kind, n, fail_at, api = args
+    top = scratch_dir("c15r")
+    out = {"evaluations": 1, "states": 1, "transitions": n, "traces": 1, "violations": [], "outcomes": ["raise-size|%s|%d|%d|%s" % (kind, n, fail_at, api)]}
+    try:
+        use(mk_backend(kind, os.path.join(top, "s")))
+        f = fx.b2.partial(7)
+        batch = [("F" if i == fail_at else i) for i in range(n)]
+        audit.bodies_reset()
+        bad = None
+        try:
+            if api == "batch":
+                f.call_batch([{"x": x} for x in batch])
+            else:
+                f.map_over_range(x=batch)
+            bad = ("no-raise", "batch of %d elements with a failing element at position %d did not raise" % (n, fail_at))
+        except Exception as e:
+            if norm(e)[:2] != ("exc", "ValueError") or "failed-7-F" not in norm(e)[2]:
+                bad = ("wrong-raise", "raised %r, the failing element gives ValueError('failed-7-F')" % (e,))
+        ran = [b[1][1] for b in audit.bodies()]
+        if not bad and len(ran) != len(set(ran)):
+            bad = ("body-count", "an element ran more than once")
+        if not bad:
+            ran_i = sorted(x for x in ran if x != "F")
+            if "F" not in ran or (ran_i != list(range(fail_at)) and ran_i != [i for i in range(n) if i != fail_at]):
+                bad = ("store-differs", "after the raise %d of the %d other elements were evaluated (positions %s...): neither the %d before the failing one "
+                       "nor all of them" % (len(ran_i), n - 1, ran_i[:3] + ran_i[-3:], fail_at))
+        if not bad:
+            # what ran is memoized: a second look runs nothing of it again
+            audit.bodies_reset()
+            for x in sorted(set(ran) - {"F"}):
+                f(x=x)
+            if audit.bodies():
+                bad = ("store-differs", "%d elements evaluated by the raising batch are not memoized" % len(audit.bodies()))
+        if bad:
+            out["violations"].append(("%s|%s|raise-first|size:%s|%s" % (kind, api, "<=128" if n <= 128 else ">128", bad[0]),
+                                      bad[1] + "\nbackend=%s api=%s n=%d failing position=%d" % (kind, api, n, fail_at), {"raise_size": [kind, n, fail_at, api]}))
     finally:
         rm(top)
     return out
@@ -346,7 +402,11 @@ def run(ctx):
     # long batches, and batches issued from inside a running function
     st = [(kind, n, api) for kind in (("fs",) if not thorough else ("mem", "fs", "fsc")) for n in ((63, 64, 65, 130) if not thorough else (63, 64, 65, 127, 128, 129, 257, 1025))
           for api in ("batch", "range")]
+    st += [("fs", n, api) for n in (0, 1, 12) for api in ("range-gen", "range-iter", "range-map")]
     ctx.merge(pmap(size_case, st, chunksize=1))
+    rst = [(kind, n, p, api) for kind in (("fs",) if not thorough else ("mem", "fs", "fsc")) for n in ((65, 130, 260) if not thorough else (65, 129, 130, 257, 520, 1030))
+           for p in sorted({0, 1, n // 3, n - 1}) for api in ("batch", "range")]
+    ctx.merge(pmap(raise_size_case, rst, chunksize=1))
     nt = []
     for L in range(1, (3 if thorough else 2) + 1):
         for batch in itertools.product([0, 1, "F"] + (["N"] if thorough else []), repeat=L):
@@ -371,9 +431,9 @@ def run(ctx):
 
 
 def replay(ctx, art):
-    if "size" in art["artefact"] or "nested" in art["artefact"]:
+    if "size" in art["artefact"] or "nested" in art["artefact"] or "raise_size" in art["artefact"]:
         a = art["artefact"]
-        r = size_case(tuple(a["size"])) if "size" in a else nested_case((a["nested"][0], a["nested"][1], a["nested"][2], a["nested"][3]))
+        r = raise_size_case(tuple(a["raise_size"])) if "raise_size" in a else size_case(tuple(a["size"])) if "size" in a else nested_case((a["nested"][0], a["nested"][1], a["nested"][2], a["nested"][3]))
         for v in r["violations"]:
             print(v[0], "\n", v[1])
         print("REPLAY property=C15 result=%s" % bool(r["violations"]))
